@@ -74,7 +74,10 @@ class BuiltStat:
         consts = {k: (jnp.asarray(v, dtype=jnp.float32) if not isinstance(v, (int, float)) else v) for k, v in it.get("consts", {}).items()}
 
         def fn(*args):
-            return f(jnp, consts, *args)
+            # the program's functions are jax functions: numpy inputs (a user may store
+            # numpy arrays in the model) are converted first, otherwise numpy's own
+            # scalar promotion (float32 0-d array * python float -> float64) takes over
+            return f(jnp, consts, *[jnp.asarray(a) for a in args])
 
         fn.__name__ = f"fn_{it['fn']}"
         return fn
